@@ -32,13 +32,13 @@ type Case struct {
 	A          *ops.AOp `json:"assoc,omitempty"`
 	Prepare    bool     `json:"prepare_stmt"`
 	PoolShim   bool     `json:"pool_shim"`
-	Nest       int      `json:"nest"`              // Transaction blocks around the operation (0..3)
-	ViaSession bool     `json:"via_session"`       // Session{Context} instead of WithContext
-	SessOpts   int      `json:"session_opts,omitempty"` // with ViaSession: 1 = also PrepareStmt, 2 = also SkipHooks, 3 = both and SkipDefaultTransaction
+	Nest       int      `json:"nest"`                     // Transaction blocks around the operation (0..3)
+	ViaSession bool     `json:"via_session"`              // Session{Context} instead of WithContext
+	SessOpts   int      `json:"session_opts,omitempty"`   // with ViaSession: 1 = also PrepareStmt, 2 = also SkipHooks, 3 = both and SkipDefaultTransaction
 	ViaConn    bool     `json:"via_connection,omitempty"` // the operation runs inside h.Connection(func(tx) …), on one dedicated connection
-	Sibling    int      `json:"sibling,omitempty"` // 1..5: other handles bound to another context are derived from the operation's handle first and abandoned
-	Warm       bool     `json:"warm"`              // run the operation once before (statements already prepared / schemas parsed)
-	HookStmts  bool     `json:"hook_stmts"`        // model hooks issue a statement of their own through the *gorm.DB they are given
+	Sibling    int      `json:"sibling,omitempty"`        // 1..5: other handles bound to another context are derived from the operation's handle first and abandoned
+	Warm       bool     `json:"warm"`                     // run the operation once before (statements already prepared / schemas parsed)
+	HookStmts  bool     `json:"hook_stmts"`               // model hooks issue a statement of their own through the *gorm.DB they are given
 	MaxSites   int      `json:"max_sites"`
 	Pick       int64    `json:"pick_seed"`
 	Only       []int    `json:"only,omitempty"` // cancellation points to run: -1 = cancelled before the call, k = before pool call k
